@@ -11,6 +11,9 @@ A property is described by checks/<ID>.py exposing CONFIG (a dict):
   trusted_base   : [ ... ], assumptions: [ ... ]
   search         : { n, seeds }                    (extra oracle-only run when a tie breaks)
 """
+import atexit
+import contextlib
+import fcntl
 import hashlib
 import importlib.util
 import json
@@ -36,6 +39,34 @@ GOENV = dict(os.environ, GOFLAGS="-mod=mod", GOPROXY="off",
              GONOSUMDB="*")
 ALLOWED_AXIOMS = {"propext", "Classical.choice", "Quot.sound"}
 FORBIDDEN = re.compile(r"\bsorry\b|\badmit\b|^\s*axiom\s|native_decide|bv_decide|implemented_by|\bunsafe\s|maxHeartbeats\s+0")
+
+
+@contextlib.contextmanager
+def locked(name):
+    """Cross-process lock: several checks may run at the same moment (they share the Lean project
+    directory, the generated fact files and the extractor binary)."""
+    os.makedirs(WORK, exist_ok=True)
+    f = open(os.path.join(WORK, name + ".lock"), "w")
+    try:
+        fcntl.flock(f, fcntl.LOCK_EX)
+        yield
+    finally:
+        fcntl.flock(f, fcntl.LOCK_UN)
+        f.close()
+
+
+_TMP_BINS = []
+
+
+def _cleanup_bins():
+    for p in _TMP_BINS:
+        try:
+            os.remove(p)
+        except OSError:
+            pass
+
+
+atexit.register(_cleanup_bins)
 
 
 def sh(cmd, cwd=None, env=None, timeout=None, stdin=None, stdout_path=None):
@@ -105,9 +136,12 @@ def build_harness(name, race=False):
     ov = write_overlay()
     bindir = os.path.join(WORK, "bin")
     os.makedirs(bindir, exist_ok=True)
-    out = os.path.join(bindir, name + ("-race" if race else ""))
+    # one binary per check process (never a stale one, never one another running check may replace)
+    out = os.path.join(bindir, "%s%s.%d" % (name, "-race" if race else "", os.getpid()))
     if os.path.exists(out):
-        os.remove(out)  # never run a stale binary
+        os.remove(out)
+    if out not in _TMP_BINS:
+        _TMP_BINS.append(out)
     cmd = ["go", "build", "-tags", "verif", "-overlay", ov, "-o", out]
     if race:
         cmd.append("-race")
@@ -119,7 +153,9 @@ def build_harness(name, race=False):
 def build_extract():
     bindir = os.path.join(WORK, "bin")
     os.makedirs(bindir, exist_ok=True)
-    out = os.path.join(bindir, "extract")
+    out = os.path.join(bindir, "extract.%d" % os.getpid())
+    if out not in _TMP_BINS:
+        _TMP_BINS.append(out)
     rc, log, dt = sh(["go", "build", "-o", out, "."], cwd=os.path.join(VERIF, "extract"), env=GOENV, timeout=600)
     return (out if rc == 0 else None), log
 
@@ -324,7 +360,8 @@ def run_stream(stream, tier, seed, workdir, search=False):
         return {"name": stream["name"], "build_failed": True, "log": hlog[-4000:], "shards": []}
     dbin = None
     if stream.get("driver"):
-        dbin, dlog = build_driver(stream["driver"])
+        with locked("lean"):
+            dbin, dlog = build_driver(stream["driver"])
         if dbin is None:
             return {"name": stream["name"], "driver_build_failed": True, "log": dlog[-4000:], "shards": []}
     key = "search" if search else tier
@@ -408,8 +445,12 @@ def run_check(pid, tier, seed):
     shutil.rmtree(os.path.join(WORK, "replays", pid), ignore_errors=True)
 
     notes = []
-    notes += run_extractors(cfg.get("extract", []))
-    ob = lean_obligations(pid, cfg["lean_props"], tier)
+    with locked("lean"):
+        notes += run_extractors(cfg.get("extract", []))
+        ob = lean_obligations(pid, cfg["lean_props"], tier)
+        for s in cfg.get("streams", []):
+            if s.get("driver"):
+                build_driver(s["driver"])
     proof_broken = list(ob["broken"])
 
     stream_results = []
